@@ -4,6 +4,7 @@ import (
 	"encoding/binary"
 	"fmt"
 	"io"
+	"slices"
 
 	"github.com/iotaledger/hive.go/ierrors"
 	"github.com/iotaledger/hive.go/serializer/v2"
@@ -14,12 +15,32 @@ func Read[T allowedGenericTypes](reader io.Reader) (result T, err error) {
 	return result, binary.Read(reader, binary.LittleEndian, &result)
 }
 
-func ReadBytes(reader io.Reader, length int) ([]byte, error) {
-	readBytes := make([]byte, length)
+// readBytesChunkSize is the most memory ReadBytes allocates ahead of the data it has actually received.
+const readBytesChunkSize = 4096
 
-	// a single Read may legitimately return fewer bytes than requested (io.Reader contract): read until the buffer is full
-	if nBytes, err := io.ReadFull(reader, readBytes); err != nil {
-		return nil, ierrors.Wrapf(err, "failed to read serialized bytes: read bytes (%d) != size (%d)", nBytes, length)
+// ReadBytes reads exactly length bytes from the reader.
+// The length usually stems from an untrusted length prefix, so the result buffer grows with the data that
+// really arrives instead of being allocated up front.
+func ReadBytes(reader io.Reader, length int) ([]byte, error) {
+	if length < 0 {
+		return nil, ierrors.Errorf("failed to read serialized bytes: invalid size (%d)", length)
+	}
+
+	readBytes := make([]byte, 0, min(length, readBytesChunkSize))
+	for len(readBytes) < length {
+		chunkSize := min(length-len(readBytes), readBytesChunkSize)
+		readBytes = slices.Grow(readBytes, chunkSize)
+
+		// a single Read may legitimately return fewer bytes than requested (io.Reader contract): read until the chunk is full
+		nBytes, err := io.ReadFull(reader, readBytes[len(readBytes):len(readBytes)+chunkSize])
+		readBytes = readBytes[:len(readBytes)+nBytes]
+		if err != nil {
+			if ierrors.Is(err, io.EOF) && len(readBytes) > 0 {
+				err = io.ErrUnexpectedEOF
+			}
+
+			return nil, ierrors.Wrapf(err, "failed to read serialized bytes: read bytes (%d) != size (%d)", len(readBytes), length)
+		}
 	}
 
 	return readBytes, nil
